@@ -326,3 +326,13 @@ func init() {
 func init() {
 	regVerif("verifNative", func(fr *frame, a []value) value { return fr.in.tc.tFalse })
 }
+
+func init() {
+	regVerif("verifBoundOr", func(fr *frame, a []value) value {
+		in := fr.in
+		if v, ok := in.cfg.Bounds[strArg(a[0])]; ok {
+			return in.tc.Const(64, uint64(v))
+		}
+		return a[1]
+	})
+}
